@@ -98,16 +98,17 @@ def analyse(h, mop, ref, pattern, path, norm, *, want=("verdict",)):
         return problems, rfound
     stream = rm.encode(norm)
     offs = record_offsets(norm)
+    offidx = {o: i for i, o in enumerate(offs)}
     spans_obs = []
     located = locate_matches(stream, texts)
     ok_align = True
     for t, loc in zip(texts, located):
-        if loc is None or loc[0] not in offs or loc[1] not in offs:
+        if loc is None or loc[0] not in offidx or loc[1] not in offidx:
             ok_align = False
             if "aligned" in want:
                 problems.append(("aligned", "match covers whole records of " + stream, t))
             continue
-        spans_obs.append((offs.index(loc[0]), offs.index(loc[1])))
+        spans_obs.append((offidx[loc[0]], offidx[loc[1]]))
     if ok_align and ({"genuine", "scan"} & set(want)):
         rspans = ref.spans(pattern, norm)
         for s in spans_obs:
@@ -136,18 +137,19 @@ def analyse(h, mop, ref, pattern, path, norm, *, want=("verdict",)):
             if bad:
                 problems.append(("scan", sorted(rspans), bad))
     if "addr" in want:
+        # empty matches (patterns that can match the empty sequence) cover no instruction: out of scope
         addrs = h.match(mop, path, ret="list", mode="all", only_addr=True)
-        exp = [t.split("::")[0] if "::" in t else None for t in texts]
-        listing_addrs = [a for a, _, _ in norm]
-        for a, s in zip(addrs, spans_obs if ok_align else []):
-            if s[0] < len(norm) and a != norm[s[0]][0]:
-                problems.append(("addr", norm[s[0]][0], a))
-        for a in addrs:
-            if a not in listing_addrs and not (a == "" and ref.ends(pattern, norm, len(norm))):
-                problems.append(("addr", "an address occurring in the input", a))
-                break
+        listing_addr_set = {a for a, _, _ in norm}
         if len(addrs) != len(texts):
             problems.append(("addr", f"{len(texts)} addresses", addrs))
+        else:
+            for a, t, loc in zip(addrs, texts, located):
+                if t == "":
+                    continue
+                if a not in listing_addr_set:
+                    problems.append(("addr", "an address occurring in the input", a))
+                elif loc is not None and loc[0] in offidx and offidx[loc[0]] < len(norm) and a != norm[offidx[loc[0]]][0]:
+                    problems.append(("addr", norm[offidx[loc[0]]][0], a))
     return problems, rfound
 
 
